@@ -93,6 +93,9 @@ pub struct Layout {
     pub rename: Vec<(String, String)>,
     /// 0: `var n: i32 = 0;`  1: `var n: i32;`  2: `var n = 0i32;`
     pub var_form: u8,
+    /// every condition has a parenthesised left operand: `if (x + 0) == x` (the bare identifier in front of a block
+    /// must still not be read as a structure literal)
+    pub paren_cond: bool,
 }
 
 impl Layout {
@@ -111,6 +114,7 @@ impl Layout {
                 .map(|m| m.iter().map(|(k, x)| (k.clone(), x.as_str().unwrap_or("").to_string())).collect())
                 .unwrap_or_default(),
             var_form: v["var_form"].as_u64().unwrap_or(0) as u8,
+            paren_cond: b("paren_cond"),
         }
     }
     fn name(&self, n: &str) -> String {
@@ -187,10 +191,12 @@ pub fn render_layout(items: &[Item], consts: &[String], params: &[String], lay: 
                 let own = i > 0 && items[i - 1].kind == "RV";
                 format!("{lab}{} fn g{nfn}(){} {{ var x: i32 = 0;", close(own), arrow(seg_has_result(i + 1)))
             }
+            "Z" => format!("var zz{i}: [0]i32 = [];"),
             "V" if lay.var_form == 1 => format!("var {}: i32;", lay.name(&it.name)),
             "V" if lay.var_form == 2 => format!("var {} = 0i32;", lay.name(&it.name)),
             _ => Item::new(&it.kind, &lay.name(&it.name)).line(),
         };
+        let text = if lay.paren_cond { text.replace("if x == x", "if (x + 0) == x") } else { text };
         src.push_str(&text);
         if lay.comments {
             src.push_str(&format!(" // {} goto x; }} {{ c{i}", it.kind.to_lowercase()));
